@@ -98,7 +98,20 @@ def c199(ctx):
             flags.append((l, asg))
     ctx.floor(R, "sais_impl: `differs from its predecessor` flags", len(flags), 1)
     for l, asg in flags:
-        for p_ in asg:
+        # the flag may be copied from other bool locals (`diff = first || helper(..)`, a helper's return value looked through): their
+        # assignments are judged in its place
+        seen_l, work, leaves = {l}, list(asg), []
+        while work:
+            p_ = work.pop()
+            rv = f.blocks[p_[0]].st[p_[1]]["rv"]
+            m = rv["a"]["pl"]["l"] if rv.get("r") == "use" and rv["a"].get("k") in ("copy", "move") and not rv["a"]["pl"]["p"] else None
+            if m is not None and f.locals[m] == "bool" and not any(kind == "call" for _q, kind, _x in P.defs(f).of(m)):
+                if m not in seen_l:
+                    seen_l.add(m)
+                    work += [(b.idx, i) for b in f.blocks for i, st in enumerate(b.st) if st["s"] == "=" and st["lhs"]["l"] == m and not st["lhs"]["p"]]
+                continue
+            leaves.append(p_)
+        for p_ in leaves:
             rv = f.blocks[p_[0]].st[p_[1]]["rv"]
             if rv.get("r") == "bin":
                 ok = cmp_ok(rv) is True
@@ -262,6 +275,14 @@ def c1912(ctx):
     ctx.floor(R, "SampledSuffixArray sample scans", len(scans), 2)
     for f in scans:
         heads = [p_ for p_ in P.call_points(f, r"Iterator>::next$|Iterator::next$") if K.loop_body(f, p_[0])]
+        if not heads:
+            # the same scan as an iterator chain (`sa.iter().enumerate().filter(..).map(..).collect()`): it runs to the end unless an adaptor
+            # cuts it short
+            cut = P.call_points(f, r"Iterator>?::(take|take_while|skip|skip_while|step_by|nth|map_while|scan)$")
+            col = P.call_points(f, r"Iterator>?::(collect|for_each|fold|extend)$|::from_iter$|::extend$")
+            ctx.check(R, f, "complete-samples-under-bounded-walk", bool(col) and not (cut and bounded),
+                      "the samples are collected by an iterator chain with no adaptor that stops early", "the sample chain is cut short (%d adaptors) under a bounded walk" % len(cut))
+            continue
         ctx.floor(R, "%s: sample loop" % f.name, len(heads), 1)
         for h_ in heads:
             early = []
